@@ -89,12 +89,13 @@ package listz
 //@   requires wf(l) && l.root.next != nil && placeOK(l, at) && e != nil && e != l.root && e.list == nil && l.len < 9223372036854775807
 //@   modifies e.prev, e.next, e.list, at.next, at.next.prev, l.len
 //@   ensures result == e && e.prev == at && e.next == old(at.next) && at.next == e && old(at.next).prev == e && e.list == l && l.len == old(l.len) + 1
+//@   ensures forall x in oldrefs(DNode): (old(x.list) != l && x != l.root && x != e) ==> (x.next == old(x.next) && x.prev == old(x.prev) && x.list == old(x.list))
 //@   ensures wf(l)
 //@   ghost[seq] p = at.pos
 //@   ghost[seq] s0 = l.seq
 //@   requires[seq] dSeq(l)
 //@   modifies[seq] l.seq, anyof(DNode.pos)
-//@   ensures[seq] forall x in oldrefs(DNode): (old(x.list) != l && x != e) ==> x.pos == old(x.pos)
+//@   ensures[seq] forall x in refs(DNode): (old(x.list) != l && x != e) ==> x.pos == old(x.pos)
 //@   ensures[seq] dSeq(l) && e.pos == p + 1 && forall k in 0..l.len+1: l.seq[k] == ite(k <= p, s0[k], ite(k == p + 1, e, s0[k-1]))
 //@   at end:
 //@     ghost[seq] all DNode.pos = seqdef x: ite(cast(DNode, x).list == l && dpos(x) > p, dpos(x) + 1, dpos(x))
@@ -106,12 +107,13 @@ package listz
 //@   requires wf(l) && l.root.next != nil && placeOK(l, at) && l.len < 9223372036854775807
 //@   modifies at.next, at.next.prev, l.len
 //@   ensures fresh(result) && result.Value == v && result.prev == at && result.next == old(at.next) && at.next == result && old(at.next).prev == result && result.list == l && l.len == old(l.len) + 1
+//@   ensures forall x in oldrefs(DNode): (old(x.list) != l && x != l.root) ==> (x.next == old(x.next) && x.prev == old(x.prev) && x.list == old(x.list))
 //@   ensures wf(l)
 //@   ghost[seq] p = at.pos
 //@   ghost[seq] s0 = l.seq
 //@   requires[seq] dSeq(l)
 //@   modifies[seq] l.seq, anyof(DNode.pos)
-//@   ensures[seq] forall x in oldrefs(DNode): old(x.list) != l ==> x.pos == old(x.pos)
+//@   ensures[seq] forall x in refs(DNode): (old(x.list) != l && x != result) ==> x.pos == old(x.pos)
 //@   ensures[seq] dSeq(l) && result.pos == p + 1 && forall k in 0..l.len+1: l.seq[k] == ite(k <= p, s0[k], ite(k == p + 1, result, s0[k-1]))
 
 //@ func DList.remove
@@ -120,12 +122,13 @@ package listz
 //@   modifies e.prev.next, e.next.prev, e.next, e.prev, e.list, l.len
 //@   ensures e.next == nil && e.prev == nil && e.list == nil && l.len == old(l.len) - 1
 //@   ensures (old(e.prev) != e && old(e.next) != e) ==> (old(e.prev).next == old(e.next) && old(e.next).prev == old(e.prev))
+//@   ensures forall x in oldrefs(DNode): (old(x.list) != l && x != l.root) ==> (x.next == old(x.next) && x.prev == old(x.prev) && x.list == old(x.list))
 //@   ensures wf(l)
 //@   ghost[seq] p = e.pos
 //@   ghost[seq] s0 = l.seq
 //@   requires[seq] dSeq(l)
 //@   modifies[seq] l.seq, anyof(DNode.pos)
-//@   ensures[seq] forall x in oldrefs(DNode): old(x.list) != l ==> x.pos == old(x.pos)
+//@   ensures[seq] forall x in refs(DNode): old(x.list) != l ==> x.pos == old(x.pos)
 //@   ensures[seq] dSeq(l) && forall k in 0..l.len+1: l.seq[k] == ite(k < p, s0[k], s0[k+1])
 //@   at end:
 //@     ghost[seq] all DNode.pos = seqdef x: ite(old(cast(DNode, x).list) == l && dpos(x) > p, dpos(x) - 1, dpos(x))
@@ -136,6 +139,7 @@ package listz
 //@   noalloc
 //@   requires wf(l) && e != nil && e.list == l && placeOK(l, at)
 //@   modifies e.prev.next, e.next.prev, e.next, e.prev, at.next, at.next.prev
+//@   ensures forall x in oldrefs(DNode): (old(x.list) != l && x != l.root) ==> (x.next == old(x.next) && x.prev == old(x.prev) && x.list == old(x.list))
 //@   ensures wf(l) && e.list == l
 //@   ensures e == at ==> nodesUnchanged()
 //@   ensures e != at ==> (e.prev == at && at.next == e && e.next == ite(old(at.next) == e, old(e.next), old(at.next)) && e.next.prev == e)
@@ -145,7 +149,7 @@ package listz
 //@   ghost[seq] s0 = l.seq
 //@   requires[seq] dSeq(l)
 //@   modifies[seq] l.seq, anyof(DNode.pos)
-//@   ensures[seq] forall x in oldrefs(DNode): old(x.list) != l ==> x.pos == old(x.pos)
+//@   ensures[seq] forall x in refs(DNode): old(x.list) != l ==> x.pos == old(x.pos)
 //@   ensures[seq] dSeq(l)
 //@   ensures[seq] (e == at || pa == pe - 1) ==> forall k in 0..l.len+1: l.seq[k] == s0[k]
 //@   ensures[seq] pa < pe - 1 ==> forall k in 0..l.len+1: l.seq[k] == ite(k <= pa, s0[k], ite(k == pa + 1, e, ite(k <= pe, s0[k-1], s0[k])))
@@ -741,3 +745,26 @@ package listz
 //@     invariant[seq] forall k in 1..n+1: other.seq[k] == old(other.seq[k]) && dval(other.seq[k]) == old(dval(other.seq[k]))
 //@     invariant[seq] i > 0 ==> e == other.seq[n - i + 1]
 //@     invariant[seq] forall k in 1..(n-i)+1: dval(l.seq[L0+k]) == old(dval(other.seq[k]))
+
+//@ func DList.PushFrontDList
+//@   noterm
+//@   ghost[seq] n = other.len
+//@   ghost[seq] L0 = l.len
+//@   requires l != nil && other != nil && wf(l) && wf(other) && (l.root.next == nil ==> l.len == 0) && l.len + other.len < 4611686018427387904
+//@   requires[seq] dInv(l) && dInv(other)
+//@   modifies anyof(DNode.next), anyof(DNode.prev), l.len, l.root.next, l.root.prev
+//@   modifies[seq] l.seq, anyof(DNode.pos), l.root.pos
+//@   ensures wf(l)
+//@   ensures[seq] dSeq(l) && l.len == L0 + n
+//@   ensures[seq] forall k in 1..L0+1: l.seq[n+k] == old(l.seq[k])
+//@   ensures[seq] forall k in 1..n+1: dval(l.seq[k]) == old(dval(other.seq[k]))
+//@   loop 1:
+//@     invariant wf(l) && l.root.next != nil && l.len < 9223372036854775807
+//@     invariant other != l ==> wf(other)
+//@     invariant[seq] 0 <= i && i <= n && dSeq(l) && l.len == L0 + (n - i)
+//@     invariant[seq] other != l ==> (dInv(other) && other.len == n)
+//@     invariant[seq] forall k in 1..L0+1: l.seq[(n-i)+k] == old(l.seq[k])
+//@     invariant[seq] forall k in 1..n+1: dval(old(other.seq[k])) == old(dval(other.seq[k]))
+//@     invariant[seq] other != l ==> forall k in 1..n+1: other.seq[k] == old(other.seq[k])
+//@     invariant[seq] i > 0 ==> e == ite(other == l, l.seq[n], other.seq[i])
+//@     invariant[seq] forall k in i+1..n+1: dval(l.seq[k-i]) == old(dval(other.seq[k]))
